@@ -101,6 +101,7 @@ def _rules():
             lambda R, c, rid: _as(R, c, rid, c02.rule_c, "C02.c"),
             lambda R, c, rid: shared.encoder_sinks(R, c, rid),
             lambda R, c, rid: shared.export_extent(R, c, rid),
+            lambda R, c, rid: _as(R, c, rid, c07.rule_e, "C07.e"),
         ],
         "type-api": [
             lambda R, c, rid: shared.api_delegations(R, c, rid),
